@@ -1,6 +1,7 @@
 package props
 
 import (
+	"context"
 	"errors"
 	"fmt"
 	"io"
@@ -28,8 +29,9 @@ type C13Step struct {
 }
 
 type C13Case struct {
-	Queue int       `json:"queue"` // 0 = synchronous channels
-	Steps []C13Step `json:"steps"`
+	Queue  int       `json:"queue"` // 0 = synchronous channels
+	Steps  []C13Step `json:"steps"`
+	Parent bool      `json:"parent,omitempty"` // the bootstrap is built WithContext(parent); a "cancelparent" step cancels the parent
 }
 
 type gatedAction struct {
@@ -104,11 +106,13 @@ type c13Listener struct {
 	started   bool
 	results   []error
 	closedPre bool // Listener.Close was called explicitly before Shutdown
+	reused    bool // its address was given to a later listener
 }
 
 func genC13(t *rapid.T) C13Case {
 	var c C13Case
 	c.Queue = rapid.SampledFrom([]int{0, 0, 8}).Draw(t, "queue")
+	c.Parent = rapid.IntRange(0, 3).Draw(t, "parent") == 1
 	nl := 0
 	n := rapid.IntRange(1, 12).Draw(t, "nsteps")
 	shutdownAt := rapid.IntRange(0, n).Draw(t, "shutdownat")
@@ -122,7 +126,7 @@ func genC13(t *rapid.T) C13Case {
 		if after {
 			ops = []string{"release", "release", "inbound", "open"}
 		} else {
-			ops = []string{"listen", "listen", "inbound", "inbound", "connect", "closechan", "peerclose", "lclose", "release", "open"}
+			ops = []string{"listen", "listen", "inbound", "inbound", "connect", "closechan", "peerclose", "lclose", "release", "open", "cancelparent"}
 			if nl >= 3 {
 				ops = ops[2:]
 			}
@@ -189,8 +193,15 @@ func runC13(c C13Case) (out core.Outcome) {
 	if c.Queue > 0 {
 		chFactory = netty.NewAsyncWriteChannel(c.Queue, true)
 	}
-	bs := netty.NewBootstrap(netty.WithTransport(factory), netty.WithExecutor(ex), netty.WithChannel(chFactory),
-		netty.WithChildInitializer(initializer), netty.WithClientInitializer(initializer))
+	opts := []netty.Option{netty.WithTransport(factory), netty.WithExecutor(ex), netty.WithChannel(chFactory),
+		netty.WithChildInitializer(initializer), netty.WithClientInitializer(initializer)}
+	parentCtx, parentCancel := context.WithCancel(context.Background())
+	defer parentCancel()
+	if c.Parent {
+		opts = append(opts, netty.WithContext(parentCtx))
+		cls.Add("with-parent-context")
+	}
+	bs := netty.NewBootstrap(opts...)
 
 	var listeners []*c13Listener
 	settle := func(what string) bool {
@@ -210,6 +221,16 @@ func runC13(c C13Case) (out core.Outcome) {
 		switch st.Op {
 		case "listen", "async", "sync":
 			url := fmt.Sprintf("mock://host:%d", 1000+len(listeners))
+			// sometimes the address of a listener that was closed explicitly is used again
+			if st.I%2 == 1 {
+				for _, old := range listeners {
+					if old.closedPre && !old.reused {
+						url, old.reused = old.url, true
+						cls.Add("url-reused-after-close")
+						break
+					}
+				}
+			}
 			l := &c13Listener{url: url}
 			if st.Slow {
 				factory.Gate(url)
@@ -309,6 +330,11 @@ func runC13(c C13Case) (out core.Outcome) {
 			}
 			tracker.Go(func() { bs.Shutdown() })
 			shutdownDone = true
+		case "cancelparent":
+			if c.Parent && !shutdownDone {
+				parentCancel()
+				cls.Add("parent-cancelled-before-shutdown")
+			}
 		case "release":
 			if ex.release(st.I) {
 				cls.Add("late-release")
